@@ -32,6 +32,10 @@ def arith(op, x, y):
         return x / y
     if op == "**":
         return x ** y
+    if op == "%":
+        return x % y
+    if op == "//":
+        return x // y
     raise ValueError(op)
 
 
@@ -138,7 +142,7 @@ def abstract_model(af, obj, idmap):
             ms.append([k, abstract_model(af, v, idmap)])
         return {"t": "tuple", "members": ms}
     if isinstance(obj, CompoundPrior):
-        op = {"SumPrior": "+", "MultiplePrior": "*", "DivisionPrior": "/", "PowerPrior": "**"}.get(type(obj).__name__)
+        op = {"SumPrior": "+", "MultiplePrior": "*", "DivisionPrior": "/", "PowerPrior": "**", "ModPrior": "%", "FloorDivPrior": "//"}.get(type(obj).__name__)
         if op is None:
             op = type(obj).__name__
         return {"t": "arith", "op": op, "ln": obj._left_name, "rn": obj._right_name,
